@@ -559,6 +559,80 @@ fn long_arrays(report: &Report, full: bool) {
     report.family(FamilyStat { name, cases: total, nontrivial: nontriv.load(Ordering::Relaxed), skipped: parse_errs.load(Ordering::Relaxed), note: format!("{} filters x {} periodic arrays (patterns of length <= 3 over 9, 10, 9.5, \"1a\", \"10\", \"B\", nil, true, two objects) x lengths x 4 argument shapes (none, 'k', the array, 2)", filters.len(), np) });
 }
 
+/// Long arrays of pairwise *distinct* elements in which numbers and digit-leading texts alternate by every
+/// periodic kind pattern (|pattern| <= 4), in several arrangements.  A comparator that orders numbers one way
+/// and everything else another way has many distinct cyclic triples here, which is what makes the standard
+/// sort's consistency check fire (repeated elements, as in `long_arrays`, rarely do).
+fn long_distinct_arrays(report: &Report, full: bool) {
+    let lens: &[usize] = if full { &[21, 22, 23, 24, 33, 48] } else { &[21, 24, 33] };
+    let parser = cfgs::parser(Config::Full);
+    let filters = filter_names(&parser);
+    let mut arrays: Vec<(String, V)> = Vec::new();
+    for &l in lens {
+        for plen in 1..=4usize {
+            for bits in 0..(1u32 << plen) {
+                let elem = |j: usize| -> V {
+                    let n = (j * 37 % 250 + 1) as i64; // distinct for j < 250, one to three digits
+                    match ((bits >> (j % plen)) & 1, j % 5) {
+                        (0, 4) => V::Float(n as f64 + 0.5),
+                        (0, _) => V::Int(n),
+                        (_, 0) => V::Str(format!("{n}px")),
+                        (_, 1) => V::Str(format!("{n} apples")),
+                        (_, 2) => V::Str(format!("{n}")),
+                        (_, 3) => V::Str(format!("{n}a")),
+                        _ => V::Str(format!("{n}-06-13")),
+                    }
+                };
+                let base: Vec<V> = (0..l).map(elem).collect();
+                for order in 0..3 {
+                    for rot in [0, 1, l / 2] {
+                        let mut a = base.clone();
+                        match order {
+                            1 => a.reverse(),
+                            2 => a = (0..l).map(|j| base[j * 7 % l].clone()).collect(), // 7 is coprime to every length used
+                            _ => {}
+                        }
+                        a.rotate_left(rot);
+                        arrays.push((format!("L={l} kinds={bits:0w$b} order={order} rot={rot}", w = plen), V::Arr(a)));
+                    }
+                }
+            }
+        }
+    }
+    let rad = [filters.len() as u64, arrays.len() as u64, 2];
+    let total = product(&rad);
+    let nontriv = AtomicU64::new(0);
+    let parse_errs = AtomicU64::new(0);
+    let build = |i: u64| -> (String, V, String) {
+        let d = decode(i, &rad);
+        let f = &filters[d[0] as usize].0;
+        let a = &arrays[d[1] as usize].1;
+        if d[2] == 0 {
+            (format!("{{{{ a | {f} }}}}"), V::obj(&[("a", a.clone())]), f.clone())
+        } else {
+            let V::Arr(items) = a else { unreachable!() };
+            let objs: Vec<V> = items.iter().map(|x| V::obj(&[("k", x.clone())])).collect();
+            (format!("{{{{ a | {f}: 'k' }}}}"), V::obj(&[("a", V::Arr(objs))]), f.clone())
+        }
+    };
+    let name = format!("long arrays of distinct mixed elements/L in {lens:?}");
+    par_range(
+        report,
+        &name,
+        total,
+        |i| {
+            let (text, data, f) = build(i);
+            total_render(report, &format!("filter={f}|long-array"), i, &parser, &text, &data, &data.to_object(), &nontriv, &parse_errs);
+        },
+        |i| {
+            let (t, d, _) = build(i);
+            json!({"kind":"render","template":t,"data":d.to_json(),"partials":[]})
+        },
+    );
+    report.nontrivial.fetch_add(nontriv.load(Ordering::Relaxed), Ordering::Relaxed);
+    report.family(FamilyStat { name, cases: total, nontrivial: nontriv.load(Ordering::Relaxed), skipped: parse_errs.load(Ordering::Relaxed), note: format!("{} filters x {} arrays (every periodic number/text kind pattern of period <= 4 over distinct 1-3 digit numbers, n.5 floats and texts \"Npx\", \"N apples\", \"N\", \"Na\", \"N-06-13\"; ascending / reversed / stride-7 arrangement x 3 rotations) x {{bare, as objects sorted by property}}", filters.len(), arrays.len()) });
+}
+
 pub fn run(tier: Tier) -> i32 {
     let report = Report::new("C02", tier, "exploration");
     report.set_rule("complete products: every registered filter (stdlib + jekyll + shopify + extra, names from reflection) x input x argument vectors of arity 0..3 from the shared value pool (variables, literals, keyword form); every loop/range/cycle/conditional/include/render/counter construct x pool values in every parameter position; generated programs x type-confused data; distinct by construction; non-trivial = the template parsed and rendered to Ok (the rest returned Err, also acceptable); oracle = returns Ok/Err, no panic/hang, bytes are UTF-8, errors carry a message");
@@ -570,5 +644,6 @@ pub fn run(tier: Tier) -> i32 {
     error_paths(&report);
     awkward_strings(&report);
     long_arrays(&report, full);
+    long_distinct_arrays(&report, full);
     report.finish()
 }
